@@ -108,6 +108,25 @@ func isValueRegistrar(name string) bool {
 	return false
 }
 
+// flagSetExpr: the expression a flag set comes from: e itself, or, when e is a local defined once
+// (`flags := xCmd.PersistentFlags()`), that definition.
+func (c *Ctx) flagSetExpr(info *types.Info, e ast.Expr) ast.Expr {
+	recv := unparen(e)
+	if id, ok := recv.(*ast.Ident); ok {
+		if lo, ok := info.Uses[id].(*types.Var); ok && !lo.IsField() {
+			c.autoOpts(info, id) // fills declSpans
+			for _, fd := range c.declSpans {
+				if fd.Pos() <= id.Pos() && id.Pos() < fd.End() {
+					if vals := localDefs(info, fd.Body, lo); len(vals) == 1 {
+						recv = unparen(vals[0])
+					}
+				}
+			}
+		}
+	}
+	return recv
+}
+
 func (c *Ctx) flagRegOf(info *types.Info, call *ast.CallExpr) *flagReg {
 	fn := calleeOf(info, call)
 	if fn == nil || !isPflagSet(fn) {
@@ -146,20 +165,7 @@ func (c *Ctx) flagRegOf(info *types.Info, call *ast.CallExpr) *flagReg {
 	}
 	// the command the flag set belongs to: xCmd.Flags() / xCmd.PersistentFlags()
 	if sel, ok := unparen(call.Fun).(*ast.SelectorExpr); ok {
-		recv := unparen(sel.X)
-		// `flags := xCmd.PersistentFlags()` kept in a local that is defined once
-		if id, ok := recv.(*ast.Ident); ok {
-			if lo, ok := info.Uses[id].(*types.Var); ok && !lo.IsField() {
-				c.autoOpts(info, id) // fills declSpans
-				for _, fd := range c.declSpans {
-					if fd.Pos() <= id.Pos() && id.Pos() < fd.End() {
-						if vals := localDefs(info, fd.Body, lo); len(vals) == 1 {
-							recv = unparen(vals[0])
-						}
-					}
-				}
-			}
-		}
+		recv := c.flagSetExpr(info, sel.X)
 		if inner, ok := recv.(*ast.CallExpr); ok {
 			if s2, ok := unparen(inner.Fun).(*ast.SelectorExpr); ok {
 				r.cmdVar = types.ExprString(s2.X)
@@ -438,7 +444,7 @@ func (c *Ctx) flagRegsByParamDefault(p *packages.Package, fd *ast.FuncDecl, reg 
 	}
 	cmdK := -1
 	if sel, ok := unparen(reg.Fun).(*ast.SelectorExpr); ok {
-		if inner, ok := unparen(sel.X).(*ast.CallExpr); ok {
+		if inner, ok := c.flagSetExpr(info, sel.X).(*ast.CallExpr); ok {
 			if s2, ok := unparen(inner.Fun).(*ast.SelectorExpr); ok {
 				cmdK = paramIdx(s2.X)
 			}
